@@ -100,6 +100,15 @@ func (m *Machine) callFn(fn *ssa.Function, args []Value, env []Value) Value {
 		// other package's initialiser: they run lazily on first global access
 		return nil
 	}
+	if fn.Pkg != nil {
+		if pp := fn.Pkg.Pkg.Path(); pp == "runtime" || strings.HasPrefix(pp, "internal/") || pp == "reflect" || pp == "unsafe" {
+			// never interpret the runtime's own machinery
+			if m.inInit > 0 {
+				return Poison{"runtime-internal " + name}
+			}
+			m.unsupported("call into " + pp + ": " + name)
+		}
+	}
 	if fn.Blocks == nil {
 		if m.inInit > 0 {
 			return Poison{"external " + name}
@@ -175,7 +184,35 @@ func (m *Machine) runFrame(fr *frame) {
 			}
 		}
 		jumped := false
-		for _, instr := range blk.Instrs {
+		// φ-nodes of a block are a parallel assignment (a swap `a, b = b, a` in a loop makes them
+		// refer to each other): read all incoming values first, then bind.
+		nphi := 0
+		for nphi < len(blk.Instrs) {
+			if _, ok := blk.Instrs[nphi].(*ssa.Phi); !ok {
+				break
+			}
+			nphi++
+		}
+		if nphi > 1 {
+			vals := make([]Value, nphi)
+			for k := 0; k < nphi; k++ {
+				phi := blk.Instrs[k].(*ssa.Phi)
+				for i, pred := range blk.Preds {
+					if fr.prev == pred {
+						vals[k] = fr.get(phi.Edges[i])
+						break
+					}
+				}
+			}
+			for k := 0; k < nphi; k++ {
+				fr.env[blk.Instrs[k].(*ssa.Phi)] = vals[k]
+			}
+		}
+		for idx, instr := range blk.Instrs {
+			if idx < nphi && nphi > 1 {
+				m.steps++
+				continue
+			}
 			m.steps++
 			if m.steps > m.Cfg.MaxSteps {
 				m.abort("bound", fmt.Sprintf("step limit %d exceeded", m.Cfg.MaxSteps))
@@ -245,6 +282,12 @@ func (m *Machine) visitGuarded(fr *frame, instr ssa.Instruction) (k int) {
 				}
 				m.stack = m.stack[:indexOfFrame(m.stack, fr)+1]
 				k = kNext
+				if _, isIf := instr.(*ssa.If); isIf {
+					// a branch on an unavailable (poisoned) value inside an initialiser: take the
+					// false edge (by far most often `if err != nil { panic }`)
+					fr.prev, fr.block = fr.block, fr.block.Succs[1]
+					k = kJump
+				}
 				return
 			}
 			panic(r)
@@ -827,7 +870,10 @@ func (m *Machine) implementsViaMethodSet(t types.Type, it *types.Interface) bool
 }
 
 func (m *Machine) goStmt(fnv Value, args []Value, site ssa.Instruction) {
-	m.unsupported("go statement (sequential mode)")
+	// Sequential mode: the new goroutine runs to completion at the point where it is started (one
+	// legal schedule). Harnesses that need other schedules model them explicitly.
+	m.noteStub("go statement executed inline (sequential schedule)")
+	m.callValue(fnv, args, site)
 }
 
 // selectOp: sequential semantics. The first ready case is taken (Go chooses pseudo-randomly among
